@@ -149,3 +149,27 @@ CHECKS["C08"] = dict(
          "(stdout and --outputFile), a closed pipe, cut and CRC-damaged .gz files and strace-injected ENOSPC.",
     design="5 C08", note=L2_NOTE,
     technique="TLC-enumerated fault positions replayed with exact fault injection in-process; trace validation; gzip damage at byte offsets; real devices and strace injection through the CLI")
+
+CHECKS["C11"] = dict(
+    level="model_checking",
+    text="spec/KeyFile.tla: one action per step of the key stage and of a run (CreateOut, StatKey, Generate, WriteKey, ReadKey, WriteCipherLine, "
+         "ExitOk, AbortMidRun, NextRun with an environment that may put any other state at the path); TLC checks NeverOverwrite, CreateOnce, "
+         "KeyBeforeCiphertext, UnusableRefused, ReadBack, SuccessHasKey over all 10 initial states x every sequence of runs (good input / input "
+         "failing part-way x environment change). Every behaviour is replayed through the real CLI as an unprivileged user with real files; after "
+         "every run key-file bytes, mode, exit status and output are judged, every ciphertext is decrypted with the real Decrypt under the key on "
+         "disk, generated keys are compared pairwise; strace'd runs are validated as KeyFile behaviours (KeyFileTrace), observing that the key "
+         "reaches the disk before the first ciphertext.",
+    design="5 C11", note=L2_NOTE,
+    technique="TLA+ key-file life-cycle spec model-checked by TLC; every run sequence replayed with real files through the CLI (unprivileged); strace trace validation of write order")
+
+CHECKS["C18"] = dict(
+    level="model_checking",
+    text="spec/Cli.tla: one action per validation check of main.go in code order, then the side effects in code order; TLC checks all 2^13 switch "
+         "combinations against a three-valued rule table written from the README and the statement (AcceptIffWellDefined, RejectionIsPure, "
+         "RunsItsSource, EffectOrder, Decides). All 8192 combinations are replayed through the real CLI in private directories with a fake Atlas "
+         "endpoint behind HTTPS_PROXY as network witness (thorough: again with a pre-existing output file and key file); exit status, message, "
+         "directory snapshot, CONNECT log and output are judged against the rule table; strace'd runs (order of output creation, key stage, "
+         "network / input access, exit) are validated as behaviours of Cli (CliTrace).",
+    design="5 C18", note="Trusted: TLC, the rule table (spec/Cli.tla MustReject / Either, mirrored in checks/c18.py and cross-checked), lib/fakeatlas.py as "
+                         "network witness, strace. The verdict comes only from the real CLI's exit status, files and CONNECT log.",
+    technique="TLC over all 2^13 switch combinations against a documentation-derived rule table; exhaustive replay on the real CLI with file-system snapshot and fake-endpoint witness; strace trace validation")
